@@ -44,12 +44,19 @@ func (s *rangeState) close() {
 	s.h = nil
 }
 
+// reqIP, when set, goes into option 50 (requested IP address) of the next request built: nothing
+// in the lease properties depends on it
+var reqIP net.IP
+
 func mkReq4(typ string, mac, host []byte) *dhcpv4.DHCPv4 {
 	mt := dhcpv4.MessageTypeDiscover
 	if typ == "R" {
 		mt = dhcpv4.MessageTypeRequest
 	}
 	mods := []dhcpv4.Modifier{dhcpv4.WithMessageType(mt), dhcpv4.WithHwAddr(net.HardwareAddr(mac))}
+	if reqIP != nil {
+		mods = append(mods, dhcpv4.WithOption(dhcpv4.OptRequestedIPAddress(reqIP)))
+	}
 	if host != nil {
 		mods = append(mods, dhcpv4.WithOption(dhcpv4.OptHostName(string(host))))
 	}
@@ -180,11 +187,16 @@ func (s *rangeState) exec(c *ctx, op string) string {
 			return ""
 		}
 		mac, host := unhx(f[2]), unhx(f[3])
+		reqIP = nil
+		if len(f) > 4 {
+			reqIP = net.IP(unhx(f[4])) // rreq <D|R> <mac> <host> [<option 50>]
+		}
 		t0 := vnow()
 		res := askOne(s.h, f[1], mac, host)
 		t1 := vnow()
+		reqIP = nil
 		res += " " + s.rowsFor(mac)
-		c.emit(fmt.Sprintf("rreq %s %s %s", f[1], f[2], f[3]), fmt.Sprintf("%d %d %s", t0, t1, res))
+		c.emit(op, fmt.Sprintf("%d %d %s", t0, t1, res))
 		return res
 	case "rrestart":
 		if s.h == nil {
@@ -333,7 +345,12 @@ func genRange(c *ctx) {
 			if c.rng.Intn(2) == 0 {
 				typ = "R"
 			}
-			s.exec(c, fmt.Sprintf("rreq %s %s %s", typ, hx(m), hx(hosts[c.rng.Intn(len(hosts))])))
+			opt50 := ""
+			if c.rng.Intn(4) == 0 {
+				// a requested address: in the range, the first one, none (0.0.0.0), outside
+				opt50 = " " + hx([]net.IP{u32ip(start + uint32(c.rng.Intn(int(size)))), u32ip(start), net.IPv4zero.To4(), net.IPv4(192, 168, 1, 77).To4()}[c.rng.Intn(4)])
+			}
+			s.exec(c, fmt.Sprintf("rreq %s %s %s%s", typ, hx(m), hx(hosts[c.rng.Intn(len(hosts))]), opt50))
 			if !used[hx(m)] {
 				used[hx(m)] = true
 				usedList = append(usedList, hx(m))
